@@ -5,7 +5,7 @@ use std::sync::Arc;
 use std::{fs, io};
 
 use crate::FileId;
-use dashmap::DashSet;
+use dashmap::DashMap;
 use ignore::gitignore::{Gitignore, GitignoreBuilder};
 use rayon::Scope;
 
@@ -152,7 +152,8 @@ pub struct Walk<'a> {
 /// Private shared state scoped to a single `run` invocation.
 struct WalkState<F> {
     pub consumer: F,
-    pub visited: DashSet<u128>,
+    /// Visited paths with the lowest nesting level they were visited at
+    pub visited: DashMap<u128, usize>,
 }
 
 impl<'a> Walk<'a> {
@@ -186,7 +187,7 @@ impl<'a> Walk<'a> {
     {
         let state = WalkState {
             consumer,
-            visited: DashSet::new(),
+            visited: DashMap::new(),
         };
         rayon::scope(|scope| {
             let ignore = if self.no_ignore {
@@ -286,8 +287,25 @@ impl<'a> Walk<'a> {
 
         // Skip already visited paths. We're checking only when follow_links is true,
         // because inserting into a shared hash set is costly.
-        if self.follow_links && !state.visited.insert(entry.path.hash128()) {
-            return;
+        // A path reached again at a lower nesting level (through another input path or link)
+        // must be visited again if the depth is limited: the first visit may have been cut
+        // short by the depth limit. Otherwise the result would depend on the visiting order.
+        if self.follow_links {
+            let mut skip = false;
+            state
+                .visited
+                .entry(entry.path.hash128())
+                .and_modify(|visited_level| {
+                    if self.depth == usize::MAX || *visited_level <= level {
+                        skip = true;
+                    } else {
+                        *visited_level = level;
+                    }
+                })
+                .or_insert(level);
+            if skip {
+                return;
+            }
         }
 
         // Skip entries ignored by .gitignore
